@@ -25,6 +25,9 @@ type Case struct {
 	Chunk  int    `json:"chunk"` // 0 whole; k: k-byte reads; negative: one cut at -k
 	// EOFWithLast: the reader returns io.EOF together with the last bytes (as http bodies with a known length do)
 	EOFWithLast bool `json:"eof_with_last,omitempty"`
+	// Again (mode "read"): after the pass that is judged, the SAME iterator value is ranged over twice more (once
+	// stopping at its first event, once to the end). What those passes yield is not specified; they must not panic.
+	Again bool `json:"again,omitempty"`
 }
 
 // GenP regenerates the stream (streams are long; the replay file stores the recipe).
@@ -151,14 +154,21 @@ func Judge(c Case) (v string) {
 	case c.Chunk < 0 && -c.Chunk < len(s):
 		cuts = []int{-c.Chunk}
 	}
-	desc := fmt.Sprintf("shape=%s n=%d k=%d (stream of %d bytes) limit=%d mode=%s chunk=%d eofWithLast=%v", c.Gen.Shape, c.Gen.N, c.Gen.K, len(s), c.Limit, c.Mode, c.Chunk, c.EOFWithLast)
+	desc := fmt.Sprintf("shape=%s n=%d k=%d (stream of %d bytes) limit=%d mode=%s chunk=%d eofWithLast=%v", c.Gen.Shape, c.Gen.N, c.Gen.K, len(s), c.Limit, c.Mode, c.Chunk, c.EOFWithLast) + map[bool]string{true: " iterator-used-again", false: ""}[c.Again]
 	defer func() {
 		if r := recover(); r != nil {
 			v = "C20: panic\x00" + desc + ": panic: " + fmt.Sprint(r)
 		}
 	}()
 	cc := c01.Case{Stream: s, Cuts: cuts, StopAfter: -1, Conn: c.Mode != "read", MaxSize: c.Limit, EOFWithLast: c.EOFWithLast}
-	got, err, pulled := run(cc, c.Mode)
+	var got []sse.Event
+	var err error
+	var pulled int
+	if c.Again && c.Mode == "read" {
+		got, err, pulled = runAgain(cc)
+	} else {
+		got, err, pulled = run(cc, c.Mode)
+	}
 	M := limitOf(c)
 	want := ref.Interpret(s, ref.Mode{RetryDispatches: cc.Conn})
 	// every yielded event is byte for byte the reference's event at that position
@@ -237,6 +247,31 @@ func run(cc c01.Case, mode string) ([]sse.Event, error, int) {
 	return events, err, r.Pulled
 }
 
+// runAgain is run for sse.Read with the iterator used three times: first stopping after its first event, then
+// to the end (this is the pass that is judged together with the first event), then once more after the end.
+func runAgain(cc c01.Case) ([]sse.Event, error, int) {
+	r := &c01.ChunkReader{Data: cc.Stream, Cuts: cc.Cuts, EOFWithLast: cc.EOFWithLast}
+	var cfg *sse.ReadConfig
+	if cc.MaxSize > 0 {
+		cfg = &sse.ReadConfig{MaxEventSize: cc.MaxSize}
+	}
+	it := sse.Read(r, cfg)
+	var events []sse.Event
+	var err error
+	it(func(e sse.Event, e2 error) bool {
+		if e2 != nil {
+			err = e2
+			return false
+		}
+		events = append(events, e)
+		return true
+	})
+	pulled := r.Pulled
+	it(func(sse.Event, error) bool { return false })
+	it(func(sse.Event, error) bool { return true })
+	return events, err, pulled
+}
+
 var Check = &sqrun.Check{ID: "C20", QuickBudget: 60, ThoroughBudget: 600,
 	Run: func(c *sqrun.Ctx) *sqrun.Outcome {
 		var cases, nontriv atomic.Int64
@@ -250,6 +285,9 @@ var Check = &sqrun.Check{ID: "C20", QuickBudget: 60, ThoroughBudget: 600,
 			for _, m := range modes {
 				for _, ch := range chunks {
 					list = append(list, Case{Gen: g, Limit: limit, Mode: m, Chunk: ch}, Case{Gen: g, Limit: limit, Mode: m, Chunk: ch, EOFWithLast: true})
+					if m == "read" && (ch == 0 || ch == 1) {
+						list = append(list, Case{Gen: g, Limit: limit, Mode: m, Chunk: ch, Again: true})
+					}
 				}
 			}
 		}
@@ -317,7 +355,7 @@ var Check = &sqrun.Check{ID: "C20", QuickBudget: 60, ThoroughBudget: 600,
 		}
 		cov := ev.Coverage{"evaluations": cases.Load(), "distinct_nontrivial": nontriv.Load(), "exhaustive": true,
 			"samples": []any{list[0], list[len(list)/2], list[len(list)-1]},
-			"rule":    fmt.Sprintf("limits %v via ReadConfig.MaxEventSize, Connection.Buffer(nil, M) and Connection.Buffer(make([]byte,4), M), plus the default 64 KiB and an enlarged 100000; stream shapes (endless line, endless event, only blank lines (LF and CRLF), only comments, an event of size n first / in the middle / last / last without blank line / with CRLF, b blank lines before it, comment-only keep-alive chunks (LF and CRLF, one and two lines) between small events, many small events) with n swept over [M-4, M+4] (and around 4096 / 65536 for the default); chunkings whole, 1-byte, 3-byte, one cut at M-1 / M / M+1 (4096 / 4097 / 1000 for the long ones); each with io.EOF returned separately and together with the last bytes; all through a counting reader. Every case is distinct by construction and non-trivial (each stream contains events or exceeds the limit).", limits)}
+			"rule":    fmt.Sprintf("limits %v via ReadConfig.MaxEventSize, Connection.Buffer(nil, M) and Connection.Buffer(make([]byte,4), M), plus the default 64 KiB and an enlarged 100000; stream shapes (endless line, endless event, only blank lines (LF and CRLF), only comments, an event of size n first / in the middle / last / last without blank line / with CRLF, b blank lines before it, comment-only keep-alive chunks (LF and CRLF, one and two lines) between small events, many small events) with n swept over [M-4, M+4] (and around 4096 / 65536 for the default); chunkings whole, 1-byte, 3-byte, one cut at M-1 / M / M+1 (4096 / 4097 / 1000 for the long ones); each with io.EOF returned separately and together with the last bytes; for sse.Read (whole and byte-wise) also with the same iterator value ranged over twice more afterwards, which must not panic; all through a counting reader. Every case is distinct by construction and non-trivial (each stream contains events or exceeds the limit).", limits)}
 		return &sqrun.Outcome{Level: "exploration", Coverage: cov, Assumptions: []string{
 			"an event whose size (including the blank lines before it) equals or exceeds the limit may be reported as too long or delivered intact; it may never be delivered truncated",
 			"'the last completed event' is the end of the last block (blank lines + lines + terminating blank line) before the oversized one",
